@@ -13,7 +13,7 @@
   OBLIGATIONS (checked by the harness):
     hints_table nonmatching_passthrough nonmatching_template_irrelevant
     declaration_order_pipeline pipeline_stages first_match_wins identity_body_is_identity
-    identity_templates_passthrough filter_terminates
+    identity_templates_passthrough filter_terminates render_declarations_first
     once_hint_irrelevant buffer_hint_irrelevant lazy_eq_eager window_footprint
     matcher_state_in_sync output_wellnested select_keeps_nesting
     lawful_single lawful_simple lawful_generic positional_not_lawful root_context_not_matched
@@ -130,6 +130,18 @@ theorem identity_templates_passthrough {σ : Type} (f start : Nat) (end_ : Optio
     (hi : ∀ t, Item.reg t ∈ items → NeverFires t ∨ IdentityBody t)
     (h : run f start end_ items mts = some r) : r.2 = evs items :=
   run_identity f start end_ items mts r hm hi h
+
+/-- **A whole render.**  For a template whose `py:match` declarations are the first children of its root
+    element: the root START passes untested (nothing is registered yet — this is the known finding
+    C12-root-context), the declarations register in order, the content is filtered with that list,
+    the root END passes.  So the theorems about registration-free streams with an initial template
+    list are theorems about `generate()` of such templates. -/
+theorem render_declarations_first {σ : Type} (f : Nat) (tg : QName) (at_ : AttrList) (regs : List (MT σ))
+    (content : List (Item σ)) (hnr : NoReg content) (hcl : Closed (evs content)) (M' : List (MT σ)) (out : List Event)
+    (h : run f 0 none content regs = some (M', out)) :
+    render (f + regs.length + 3) (.ev (.start tg at_) :: (regs.map Item.reg ++ (content ++ [.ev (.end_ tg)]))) =
+      some (.start tg at_ :: (out ++ [.end_ tg])) :=
+  Genshi.Match.render_declarations_first f tg at_ regs content hnr hcl M' out h
 
 /-! ### the once hint -/
 
